@@ -252,6 +252,21 @@ VACUITY = {
 }
 
 
+RULE = ('every terminal behaviour of the bounded design model is one scenario (environment choices: reply class per '
+        'command occurrence, drops, stalls, transport failures, render faults, capability set, client configuration); '
+        'non-trivial = at least one non-default environment choice or render fault; distinct by (cfg, env)')
+
+
+def casekey(begin):
+    return json.dumps([begin['cfg'], begin.get('env')], sort_keys=True)
+
+
+def sample(tr):
+    b = tr[0][0]
+    return dict(scenario=b.get('scn'), cfg=b['cfg'], env=b.get('env'),
+                trace=[{k: v for k, v in e.items() if k not in ('pred', 'pret', 'cfg', 'env')} for e, _ in tr[1:]][:60])
+
+
 def nontrivial(begin):
     return bool(begin.get('env')) or any(x != 'ok' for x in begin['cfg'].get('rf', []))
 
